@@ -10,5 +10,8 @@ Next == UNCHANGED <<id, canon, nitems, pairdict>>
 (* the canonical writer's text is itself a rendering *)
 X_RowOfTotal == \A ti \in 1..Len(canon.tables) : RowOf(canon, ti, 0) = <<>> /\ RowOf(canon, ti, Len(canon.tables[ti].rows) + 1) = <<>>
                    /\ Len(ListOfDicts(canon, ti)) = Len(canon.tables[ti].rows)
-C01_WriteDocRoundTrip == SpecParse(WriteDoc(DocById(id))) = canon
+(* the writer upper-cases enum type names; a document with a lower-case enum name (D7, a reader-side document) is not
+   something the writer produces, so the writer law is stated for the others *)
+WriterExpressible(d) == \A k \in 1..Len(d.enums) : UpStr(d.enums[k].name) = d.enums[k].name
+C01_WriteDocRoundTrip == WriterExpressible(DocById(id)) => SpecParse(WriteDoc(DocById(id))) = canon
 =============================================================================
